@@ -18,6 +18,7 @@ use crate::rpc::services::consistency_impl::{
 use crate::rpc::services::replication_impl::{
     FetchDocs,
     GetState,
+    KeyspaceOrSwotSet,
     PollKeyspace,
     ReplicationService,
 };
@@ -202,6 +203,12 @@ where
                 keyspace: keyspace.into(),
             })
             .await?;
+
+        // The reply comes from the peer: the view over it is unchecked, the length and
+        // position of the nested state bytes have to be validated before they are followed.
+        let reply = inner.as_bytes();
+        rkyv::check_archived_root::<KeyspaceOrSwotSet>(&reply[..reply.len() - 4])
+            .map_err(|_| Status::invalid())?;
 
         self.clock.register_ts(inner.timestamp.cast()).await;
 
